@@ -1,6 +1,7 @@
 import AfkakProofs.Consumer.Pure
 import AfkakProofs.Consumer.Trace
 import AfkakProofs.Consumer.B_C14e
+import AfkakProofs.Consumer.A5_At6
 import AfkakProps.Open.C14
 /-!
 # C14 — retries, offset-reset policy and buffer growth follow the contract
@@ -107,12 +108,26 @@ theorem C14_backoff_step (cfg : Cfg) (s : St) (hr : s.startD ≠ .none) (hs : s.
   have hr' : (s.startD == StartD.none) = false := by simpa using hr
   simp [retryFetch, emit, hs, hd, ht, hr']
 
-/-- A successful reply resets the delay to the initial one (and the attempt count), for offset
-    replies and for fetch replies alike (also when the reply has to wait behind a block). -/
+/-- A successful FETCH reply that has to wait behind a block resets the delay to the initial one and the attempt count
+    (offset look-ups: `C14_success_resets_offset`; the fetch reply that is handled at once is covered at trace level:
+    `C14_delays` resets on every applied fetchOk/offsetOk/offsetFetchOk). -/
 theorem C14_success_resets (cfg : Cfg) (inner : Ops) (k : Nat) (r : Reply) (s : St) (hr : s.startD ≠ .none) (hb : s.msgBlock = true) :
     (handleFetchResponse cfg inner k r s).retryDelay = cfg.retryInit ∧ (handleFetchResponse cfg inner k r s).attempts = 1 := by
   have hr' : (s.startD == StartD.none) = false := by simpa using hr
   simp [handleFetchResponse, hr', hb]
+
+/-- A successful offset look-up (OffsetResponse or OffsetFetchResponse) of a running consumer resets the delay to the
+    initial one and the attempt count to 1, whatever request goes out next. -/
+theorem C14_success_resets_offset (cfg : Cfg) (isFetch : Bool) (off : Int) (s : St) (hr : s.startD ≠ .none) :
+    (handleOffsetResponse cfg isFetch off s).retryDelay = cfg.retryInit ∧ (handleOffsetResponse cfg isFetch off s).attempts = 1 := by
+  have hr' : (s.startD == StartD.none) = false := by simpa using hr
+  have hd : ∀ x : St, (doFetch cfg x).retryDelay = x.retryDelay ∧ (doFetch cfg x).attempts = x.attempts := by
+    intro x; unfold doFetch startErrback errbackRaises emit; grind
+  unfold handleOffsetResponse offsetResponseTail
+  simp only [hr', Bool.false_eq_true, if_false]
+  rw [(hd _).1, (hd _).2]
+  repeat' split
+  all_goals exact ⟨rfl, rfl⟩
 
 /-- Attempt limit: with `L > 0` and `L` attempts made, a failure is reported on the start Deferred and
     NO retry is scheduled; with `L = 0` a running consumer always schedules the retry. -/
@@ -157,18 +172,55 @@ theorem C14_never_skips_trace : Open.C14.C14_never_skips_trace := by
   have h := B.run_c cfg False script (fun h => h.elim) evs (fun h => h.elim)
   exact accepts_trace _ _ cfg script evs h.2.1.n1
 
-/-- The reset-policy statement speaks of configurations the constructor accepts (`auto_offset_reset` is None,
-    OFFSET_EARLIEST or OFFSET_LATEST: anything else raises ValueError in `Consumer.__init__`) … -/
-def resetCfgOk (cfg : Cfg) : Bool :=
-  match cfg.reset with
-  | none => true
-  | some v => v == offsetEarliest || v == offsetLatest
+/-- Trace level: with an attempt limit `L > 0` no refetch is scheduled in the handling of the `L`-th (or a later) consecutive
+    failed fetch/offset request (a reply whose message iteration raises counts as the first failure of a new run); with
+    `L = 0` every failed request of a running consumer that is not shutting down (other than out-of-range without a reset
+    policy) is followed by a scheduled refetch before the step is over - on every trace: any configuration, processor
+    script and event list (restarts, re-entrant stop/shutdown/commit calls, parked and late replies, crashes included). -/
+theorem C14_attempt_limit : Open.C14.C14_attempt_limit := by
+  intro cfg script evs
+  exact accepts_trace _ _ cfg script evs (T.run_a cfg script evs).1.ok
 
-/-- … and of OffsetResponses that carry a Kafka offset (≥ 0; a broker never answers an offset look-up with a sentinel). -/
-def saneOffsetEvent : Ev → Bool
-  | .offsetOk _ off => decide (0 ≤ off)
-  | _ => true
+/-- "… the start Deferred FAILS after no more than that many consecutive failed attempts": from ANY reachable state with the
+    start Deferred still pending and a fetch request outstanding, if the attempt limit is `L > 0` and `L - 1` consecutive
+    failures have been counted (`T.failures` = the count of the trace monitor `atStep`; the consumer's own
+    `_fetch_attempt_count` is never smaller), the next failure of that request is reported on the start Deferred - with that
+    very failure - in the same step, and nothing is retried: no request outstanding, no refetch scheduled. -/
+theorem C14_limit_reports_fetch (cfg : Cfg) (script : List PEntry) (evs : List Ev) (k : Nat) (ek : ErrKind) (tag : Nat) (c : Bool)
+    (hL : cfg.maxAttempts ≠ 0) (hcr : (run cfg script evs).crashed = false)
+    (hreq : (run cfg script evs).requestD = .pending k .fetch c) (hsd : (run cfg script evs).startD = .pending)
+    (hcf : cfg.maxAttempts ≤ T.failures cfg (run cfg script evs) + 1) :
+    (step cfg (run cfg script evs) (.fetchErr k ek tag)).out =
+        .ob (.probe (run cfg script evs).lastProcessed (run cfg script evs).lastCommitted) ::
+          .ob (.startFired (.err (.ext ek tag))) :: .ev (.fetchErr k ek tag) :: (run cfg script evs).out ∧
+      (step cfg (run cfg script evs) (.fetchErr k ek tag)).startD = .called ∧
+      (step cfg (run cfg script evs) (.fetchErr k ek tag)).requestD = .none ∧
+      (step cfg (run cfg script evs) (.fetchErr k ek tag)).retryCall = .none :=
+  T.step_fetchErr_limit cfg script evs k ek tag c hL hcr hreq hsd hcf
 
+/-- … likewise for a failed offset look-up (OffsetRequest: `kind = .offsets`, event `offsetErr`; OffsetFetchRequest:
+    `kind = .offsetFetch`, event `offsetFetchErr`). -/
+theorem C14_limit_reports_offset (cfg : Cfg) (script : List PEntry) (evs : List Ev) (k : Nat) (ek : ErrKind) (tag : Nat) (c : Bool)
+    (kind : ReqKind) (e : Ev) (he : (kind = .offsets ∧ e = .offsetErr k ek tag) ∨ (kind = .offsetFetch ∧ e = .offsetFetchErr k ek tag))
+    (hL : cfg.maxAttempts ≠ 0) (hcr : (run cfg script evs).crashed = false)
+    (hreq : (run cfg script evs).requestD = .pending k kind c) (hsd : (run cfg script evs).startD = .pending)
+    (hcf : cfg.maxAttempts ≤ T.failures cfg (run cfg script evs) + 1) :
+    (step cfg (run cfg script evs) e).out =
+        .ob (.probe (run cfg script evs).lastProcessed (run cfg script evs).lastCommitted) ::
+          .ob (.startFired (.err (.ext ek tag))) :: .ev e :: (run cfg script evs).out ∧
+      (step cfg (run cfg script evs) e).startD = .called ∧
+      (step cfg (run cfg script evs) e).requestD = .none ∧
+      (step cfg (run cfg script evs) e).retryCall = .none :=
+  T.step_offsetErr_limit cfg script evs k ek tag c kind e he hL hcr hreq hsd hcf
+
+/-! Non-vacuity: limit 2, one failure, the refetch is out: the hypotheses hold (and the second failure is then reported). -/
+example :
+    let cfg : Cfg := { group := false, autoN := 0, autoS := 0, bufInit := 1, bufMax := none, retryInit := 0, retryMax := 0, maxAttempts := 2, reset := none }
+    let s := run cfg [] [.start 5, .fetchErr 0 .kafka 1, .retryFire]
+    s.crashed = false ∧ s.requestD = .pending 1 .fetch false ∧ s.startD = .pending ∧ cfg.maxAttempts ≤ T.failures cfg s + 1 := by
+  decide +kernel
+
+open Open.C14 (resetCfgOk saneOffsetEvent) in
 example : resetCfgOk ({ group := false, autoN := 0, autoS := 0, bufInit := 1, bufMax := none, retryInit := 1, retryMax := 2, maxAttempts := 0, reset := some offsetLatest } : Cfg) = true ∧
     [Ev.start 5, .fetchErr 0 .outOfRange 1, .retryFire, .offsetOk 1 17].all saneOffsetEvent = true := by decide
 
@@ -176,21 +228,21 @@ example : resetCfgOk ({ group := false, autoN := 0, autoS := 0, bufInit := 1, bu
     request is followed by exactly what the policy says - no policy: the failure is reported on the start Deferred and
     nothing is retried; earliest/latest: the next request is the OffsetRequest for that time, and fetching goes on
     exactly at the offset the broker names - on every trace. -/
-theorem C14_reset_policy_trace_partial (cfg : Cfg) (script : List PEntry) (evs : List Ev) (hc : resetCfgOk cfg = true)
-    (he : evs.all saneOffsetEvent = true) : resetOk cfg.reset (trace cfg script evs) = true := by
+theorem C14_reset_policy_trace : Open.C14.C14_reset_policy_trace := by
+  intro cfg script evs hc he
   have hres : True → ∀ v, cfg.reset = some v → v = offsetEarliest ∨ v = offsetLatest := by
     intro _ v hv
-    simpa [resetCfgOk, hv] using hc
+    simpa [Open.C14.resetCfgOk, hv] using hc
   have hev : True → ∀ e ∈ evs, B.EvSane e := by
     intro _ e hmem
     have := List.all_eq_true.1 he e hmem
-    cases e <;> simp_all [saneOffsetEvent, B.EvSane]
+    cases e <;> simp_all [Open.C14.saneOffsetEvent, B.EvSane]
   have h := B.run_c cfg True script hres evs hev
   exact accepts_trace _ _ cfg script evs (h.2.2.2 trivial).r1
 
-/-- The full statement quantifies over configurations the constructor refuses: with `auto_offset_reset = 5` the model
-    (like the code would, could such a consumer be built) goes on fetching at offset 5 after an out-of-range answer. -/
-theorem C14_reset_policy_trace_counterexample : ¬ Open.C14.C14_reset_policy_trace := by
+/-- Without the restriction to configurations the constructor accepts the statement is false: with `auto_offset_reset = 5`
+    the model (like the code would, could such a consumer be built) goes on fetching at offset 5 after an out-of-range answer. -/
+theorem C14_reset_policy_trace_unrestricted_counterexample : ¬ Open.C14.C14_reset_policy_trace_unrestricted := by
   intro h
   have := h ({ group := false, autoN := 0, autoS := 0, bufInit := 1, bufMax := none, retryInit := 0, retryMax := 0, maxAttempts := 0, reset := some 5 } : Cfg) [] [.start 9, .fetchErr 0 .outOfRange 1, .retryFire]
   revert this
@@ -207,14 +259,16 @@ C14_too_small_grows
 C14_reset_policy
 C14_backoff_step
 C14_success_resets
+C14_success_resets_offset
 C14_attempt_limit_step
 C14_growth_trace
 C14_delays
 C14_never_skips_trace
-C14_reset_policy_trace_partial
-C14_reset_policy_trace_counterexample
+C14_attempt_limit
+C14_limit_reports_fetch
+C14_limit_reports_offset
+C14_reset_policy_trace
+C14_reset_policy_trace_unrestricted_counterexample
 -/
 /- OPEN_STATEMENTS
-C14_attempt_limit
-C14_reset_policy_trace
 -/
